@@ -115,6 +115,18 @@ using M = hfsm2::MachineT<Cfg>;
 
 template <int N> struct St;
 using FSM = VF_FSM_TYPE(M);
+
+// the templated flavour of the API needs the state's type: dispatch from a run-time id (headless states have none: the caller falls back to the id)
+template <typename T> struct TypeTag { using type = T; };
+template <typename F>
+inline bool withStateType(int s, F&& f) {
+	switch (s) {
+#define VF_TYPE_CASE(N) case N: f(TypeTag<St<N>>{}); return true;
+	VF_FOR_EACH_STATE(VF_TYPE_CASE)
+#undef VF_TYPE_CASE
+	default: return false;
+	}
+}
 using Instance = FSM::Instance;
 
 using ConstControl = FSM::ConstControl;
@@ -198,14 +210,55 @@ struct CtlAdaptor final : vf::ICtl {
 		     | (IS_EVENT ? vf::CC_EVENT : 0) | (IS_CONSTCTL ? vf::CC_QUERY : 0);
 	}
 	int  stateId() const override { return c.stateId() == hfsm2::INVALID_STATE_ID ? -1 : int(c.stateId()); }
-	bool isActive(int s) const override { return c.isActive(hfsm2::StateID(s)); }
-	bool isResumable(int s) const override { return c.isResumable(hfsm2::StateID(s)); }
+	bool typed() const { return c.context().typed; }
+	bool isActive(int s) const override {
+		bool r = false;
+		if (typed() && withStateType(s, [&](auto t) { r = c.template isActive<typename decltype(t)::type>(); })) return r;
+		return c.isActive(hfsm2::StateID(s));
+	}
+	bool isResumable(int s) const override {
+		bool r = false;
+		if (typed() && withStateType(s, [&](auto t) { r = (s & 1) ? c.template isResumable<typename decltype(t)::type>() : c.template isScheduled<typename decltype(t)::type>(); })) return r;
+		return c.isResumable(hfsm2::StateID(s));
+	}
 	int  activeSubState(int s) const override { const hfsm2::Prong p = c.activeSubState(hfsm2::StateID(s)); return p == hfsm2::INVALID_PRONG ? -1 : int(p); }
 	void requests(std::vector<vf::Tr>& out) const override { toTrs(c.requests(), out); }
 
 	void request(int kind, int dest, const int64_t* payload) override {
 		if constexpr (IS_FULL) {
 			const hfsm2::StateID d = hfsm2::StateID(dest);
+			if (typed() && withStateType(dest, [&](auto t) {
+				using T = typename decltype(t)::type;
+#if VF_PAYLOAD
+				if (payload) {
+					const Payload p = toPayload(*payload);
+					switch (kind) {
+					case vf::K_CHANGE:    c.template changeWith   <T>(p); return;
+					case vf::K_RESTART:   c.template restartWith  <T>(p); return;
+					case vf::K_RESUME:    c.template resumeWith   <T>(p); return;
+					case vf::K_SELECT:    c.template selectWith   <T>(p); return;
+#if VF_UTILITY
+					case vf::K_UTILIZE:   c.template utilizeWith  <T>(p); return;
+					case vf::K_RANDOMIZE: c.template randomizeWith<T>(p); return;
+#endif
+					case vf::K_SCHEDULE:  c.template scheduleWith <T>(p); return;
+					default: return;
+					}
+				}
+#endif
+				switch (kind) {
+				case vf::K_CHANGE:    c.template changeTo <T>(); return;
+				case vf::K_RESTART:   c.template restart  <T>(); return;
+				case vf::K_RESUME:    c.template resume   <T>(); return;
+				case vf::K_SELECT:    c.template select   <T>(); return;
+#if VF_UTILITY
+				case vf::K_UTILIZE:   c.template utilize  <T>(); return;
+				case vf::K_RANDOMIZE: c.template randomize<T>(); return;
+#endif
+				case vf::K_SCHEDULE:  c.template schedule <T>(); return;
+				default: return;
+				}
+			})) return;
 #if VF_PAYLOAD
 			if (payload) {
 				const Payload p = toPayload(*payload);
@@ -241,13 +294,21 @@ struct CtlAdaptor final : vf::ICtl {
 	}
 	void succeed(int s) override {
 #if VF_PLANS
-		if constexpr (IS_FULL) { if (s < 0) c.succeed(); else c.succeed(hfsm2::StateID(s)); }
+		if constexpr (IS_FULL) {
+			if (s < 0) c.succeed();
+			else if (typed() && withStateType(s, [&](auto t) { c.template succeed<typename decltype(t)::type>(); })) {}
+			else c.succeed(hfsm2::StateID(s));
+		}
 #endif
 		(void) s;
 	}
 	void fail(int s) override {
 #if VF_PLANS
-		if constexpr (IS_FULL) { if (s < 0) c.fail(); else c.fail(hfsm2::StateID(s)); }
+		if constexpr (IS_FULL) {
+			if (s < 0) c.fail();
+			else if (typed() && withStateType(s, [&](auto t) { c.template fail<typename decltype(t)::type>(); })) {}
+			else c.fail(hfsm2::StateID(s));
+		}
 #endif
 		(void) s;
 	}
@@ -327,9 +388,9 @@ struct CtlAdaptor final : vf::ICtl {
 		if constexpr (IS_EVENT) c.consumeEvent();
 		if constexpr (IS_CONSTCTL && !std::is_const<C>::value) c.consumeQuery();
 	}
-	bool isPendingEnter (int s) const override { if constexpr (IS_GUARD) return c.isPendingEnter (hfsm2::StateID(s)); else { (void) s; return false; } }
-	bool isPendingExit  (int s) const override { if constexpr (IS_GUARD) return c.isPendingExit  (hfsm2::StateID(s)); else { (void) s; return false; } }
-	bool isPendingChange(int s) const override { if constexpr (IS_GUARD) return c.isPendingChange(hfsm2::StateID(s)); else { (void) s; return false; } }
+	bool isPendingEnter (int s) const override { if constexpr (IS_GUARD) { bool r = false; if (typed() && withStateType(s, [&](auto t) { r = c.template isPendingEnter <typename decltype(t)::type>(); })) return r; return c.isPendingEnter (hfsm2::StateID(s)); } else { (void) s; return false; } }
+	bool isPendingExit  (int s) const override { if constexpr (IS_GUARD) { bool r = false; if (typed() && withStateType(s, [&](auto t) { r = c.template isPendingExit  <typename decltype(t)::type>(); })) return r; return c.isPendingExit  (hfsm2::StateID(s)); } else { (void) s; return false; } }
+	bool isPendingChange(int s) const override { if constexpr (IS_GUARD) { bool r = false; if (typed() && withStateType(s, [&](auto t) { r = c.template isPendingChange<typename decltype(t)::type>(); })) return r; return c.isPendingChange(hfsm2::StateID(s)); } else { (void) s; return false; } }
 	void pending(std::vector<vf::Tr>& out) const override { out.clear(); if constexpr (IS_GUARD) toTrs(c.pendingTransitions(), out); }
 	void current(std::vector<vf::Tr>& out) const override {
 		out.clear();
@@ -525,7 +586,7 @@ struct Node final : vf::INode {
 		harness = h;
 		if (!rngCell) { rngCell = std::make_shared<vf::IHarness*>(h); rngObj = std::make_shared<ScriptRng>(ScriptRng{rngCell.get()}); }
 		*rngCell = h;
-		vf::NodeCtx ctx; ctx.h = h;
+		vf::NodeCtx ctx; ctx.h = h; ctx.typed = typed;
 		(void) withLogger;
 		vf::LibScope ls;
 #if VF_UTILITY && !VF_BUILTIN_RNG
@@ -552,6 +613,7 @@ struct Node final : vf::INode {
 			inst = new (arena) Instance{*from.inst};
 		}
 		hfsm2_verif::Probe::core(*inst).context.h = h;
+		typed = from.typed;
 #if VF_LOG
 		if (hfsm2_verif::Probe::core(*inst).logger) inst->attachLogger(&logger);
 #endif
@@ -593,9 +655,44 @@ struct Node final : vf::INode {
 	void react(int ev) override { drive(); vf::LibScope ls; if (ev == 0) inst->react(Ev0{}); else inst->react(Ev1{}); }
 	void query(int) override { drive(); vf::LibScope ls; Qr0 q; static_cast<const Instance*>(inst)->query(q); }
 
+	bool typed = false;
+	void useTyped(bool on) override { typed = on; if (inst) hfsm2_verif::Probe::core(*inst).context.typed = on; }
+
 	void request(int kind, int dest, const int64_t* payload) override {
 		drive(); vf::LibScope ls;
 		const hfsm2::StateID d = hfsm2::StateID(dest);
+		if (typed && withStateType(dest, [&](auto t) {
+			using T = typename decltype(t)::type;
+#if VF_PAYLOAD
+			if (payload) {
+				const Payload p = toPayload(*payload);
+				switch (kind) {
+				case vf::K_CHANGE:    inst->template changeWith   <T>(p); return;
+				case vf::K_RESTART:   inst->template restartWith  <T>(p); return;
+				case vf::K_RESUME:    inst->template resumeWith   <T>(p); return;
+				case vf::K_SELECT:    inst->template selectWith   <T>(p); return;
+#if VF_UTILITY
+				case vf::K_UTILIZE:   inst->template utilizeWith  <T>(p); return;
+				case vf::K_RANDOMIZE: inst->template randomizeWith<T>(p); return;
+#endif
+				case vf::K_SCHEDULE:  inst->template scheduleWith <T>(p); return;
+				default: return;
+				}
+			}
+#endif
+			switch (kind) {
+			case vf::K_CHANGE:    inst->template changeTo <T>(); return;
+			case vf::K_RESTART:   inst->template restart  <T>(); return;
+			case vf::K_RESUME:    inst->template resume   <T>(); return;
+			case vf::K_SELECT:    inst->template select   <T>(); return;
+#if VF_UTILITY
+			case vf::K_UTILIZE:   inst->template utilize  <T>(); return;
+			case vf::K_RANDOMIZE: inst->template randomize<T>(); return;
+#endif
+			case vf::K_SCHEDULE:  inst->template schedule <T>(); return;
+			default: return;
+			}
+		})) return;
 #if VF_PAYLOAD
 		if (payload) {
 			const Payload p = toPayload(*payload);
@@ -631,6 +728,36 @@ struct Node final : vf::INode {
 	void immediate(int kind, int dest, const int64_t* payload) override {
 		drive(); vf::LibScope ls;
 		const hfsm2::StateID d = hfsm2::StateID(dest);
+		if (typed && withStateType(dest, [&](auto t) {
+			using T = typename decltype(t)::type;
+#if VF_PAYLOAD
+			if (payload) {
+				const Payload p = toPayload(*payload);
+				switch (kind) {
+				case vf::K_CHANGE:    inst->template immediateChangeWith   <T>(p); return;
+				case vf::K_RESTART:   inst->template immediateRestartWith  <T>(p); return;
+				case vf::K_RESUME:    inst->template immediateResumeWith   <T>(p); return;
+				case vf::K_SELECT:    inst->template immediateSelectWith   <T>(p); return;
+#if VF_UTILITY
+				case vf::K_UTILIZE:   inst->template immediateUtilizeWith  <T>(p); return;
+				case vf::K_RANDOMIZE: inst->template immediateRandomizeWith<T>(p); return;
+#endif
+				default: return;
+				}
+			}
+#endif
+			switch (kind) {
+			case vf::K_CHANGE:    inst->template immediateChangeTo <T>(); return;
+			case vf::K_RESTART:   inst->template immediateRestart  <T>(); return;
+			case vf::K_RESUME:    inst->template immediateResume   <T>(); return;
+			case vf::K_SELECT:    inst->template immediateSelect   <T>(); return;
+#if VF_UTILITY
+			case vf::K_UTILIZE:   inst->template immediateUtilize  <T>(); return;
+			case vf::K_RANDOMIZE: inst->template immediateRandomize<T>(); return;
+#endif
+			default: return;
+			}
+		})) return;
 #if VF_PAYLOAD
 		if (payload) {
 			const Payload p = toPayload(*payload);
@@ -663,13 +790,17 @@ struct Node final : vf::INode {
 	}
 	void succeed(int s) override {
 #if VF_PLANS
-		drive(); vf::LibScope ls; inst->succeed(hfsm2::StateID(s));
+		drive(); vf::LibScope ls;
+		if (typed && withStateType(s, [&](auto t) { inst->template succeed<typename decltype(t)::type>(); })) return;
+		inst->succeed(hfsm2::StateID(s));
 #endif
 		(void) s;
 	}
 	void fail(int s) override {
 #if VF_PLANS
-		drive(); vf::LibScope ls; inst->fail(hfsm2::StateID(s));
+		drive(); vf::LibScope ls;
+		if (typed && withStateType(s, [&](auto t) { inst->template fail<typename decltype(t)::type>(); })) return;
+		inst->fail(hfsm2::StateID(s));
 #endif
 		(void) s;
 	}
@@ -806,7 +937,9 @@ struct Node final : vf::INode {
 	}
 	int lastTransitionTo(int s, vf::Tr& out) const override {
 #if VF_HISTORY
-		if (const auto* t = inst->lastTransitionTo(hfsm2::StateID(s))) {
+		decltype(inst->lastTransitionTo(hfsm2::StateID(0))) t = nullptr;
+		if (!(typed && withStateType(s, [&](auto tag) { t = inst->template lastTransitionTo<typename decltype(tag)::type>(); }))) t = inst->lastTransitionTo(hfsm2::StateID(s));
+		if (t) {
 			out = toTr(*t);
 			const auto& prev = inst->previousTransitions();
 			if (prev.count() == 0) return -2;                       // non-null while the array is empty
@@ -818,12 +951,24 @@ struct Node final : vf::INode {
 		(void) s; (void) out; return -1;
 	}
 
-	bool isActive(int s) const override { return inst->isActive(hfsm2::StateID(s)); }
-	bool isResumable(int s) const override { return inst->isResumable(hfsm2::StateID(s)); }
-	int  activeSubState(int s) const override { const hfsm2::Prong p = inst->activeSubState(hfsm2::StateID(s)); return p == hfsm2::INVALID_PRONG ? -1 : int(p); }
-	bool isPendingEnter (int s) const override { return inst->isPendingEnter (hfsm2::StateID(s)); }
-	bool isPendingExit  (int s) const override { return inst->isPendingExit  (hfsm2::StateID(s)); }
-	bool isPendingChange(int s) const override { return inst->isPendingChange(hfsm2::StateID(s)); }
+	bool isActive(int s) const override {
+		bool r = false;
+		if (typed && withStateType(s, [&](auto t) { r = inst->template isActive<typename decltype(t)::type>(); })) return r;
+		return inst->isActive(hfsm2::StateID(s));
+	}
+	bool isResumable(int s) const override {
+		bool r = false;
+		if (typed && withStateType(s, [&](auto t) { r = (s & 1) ? inst->template isResumable<typename decltype(t)::type>() : inst->template isScheduled<typename decltype(t)::type>(); })) return r;
+		return (s & 2) ? inst->isResumable(hfsm2::StateID(s)) : inst->isScheduled(hfsm2::StateID(s));
+	}
+	int  activeSubState(int s) const override {
+		hfsm2::Prong p = hfsm2::INVALID_PRONG;
+		if (!(typed && withStateType(s, [&](auto t) { p = inst->template activeSubState<typename decltype(t)::type>(); }))) p = inst->activeSubState(hfsm2::StateID(s));
+		return p == hfsm2::INVALID_PRONG ? -1 : int(p);
+	}
+	bool isPendingEnter (int s) const override { bool r = false; if (typed && withStateType(s, [&](auto t) { r = inst->template isPendingEnter <typename decltype(t)::type>(); })) return r; return inst->isPendingEnter (hfsm2::StateID(s)); }
+	bool isPendingExit  (int s) const override { bool r = false; if (typed && withStateType(s, [&](auto t) { r = inst->template isPendingExit  <typename decltype(t)::type>(); })) return r; return inst->isPendingExit  (hfsm2::StateID(s)); }
+	bool isPendingChange(int s) const override { bool r = false; if (typed && withStateType(s, [&](auto t) { r = inst->template isPendingChange<typename decltype(t)::type>(); })) return r; return inst->isPendingChange(hfsm2::StateID(s)); }
 	void requests(std::vector<vf::Tr>& out) const override { toTrs(hfsm2_verif::Probe::core(*inst).requests, out); }
 	bool structureActive(int s) const override {
 #if VF_REPORT
